@@ -54,3 +54,26 @@ def pieces(node):
 
 def literal_text(ps, hole="\x00"):
     return "".join(p if isinstance(p, str) else hole for p in ps)
+
+
+def flat_pieces(node, depth=0):
+    """like pieces(), but arguments that are themselves `format!` results are expanded in place
+    (the repository's `formatln!` wraps an inner format! in `{}\\n`)"""
+    out = []
+    for p in pieces(node):
+        if isinstance(p, str):
+            out.append(p)
+            continue
+        inner = p[1]
+        if depth < 4 and inner.kind == "call" and find_arguments(inner) is not None and method_name(inner.a) in ("must_use", "format", "fmt::format", "hint::must_use"):
+            out.extend(flat_pieces(inner, depth + 1))
+        else:
+            out.append(p)
+    # merge adjacent literals
+    merged = []
+    for p in out:
+        if isinstance(p, str) and merged and isinstance(merged[-1], str):
+            merged[-1] += p
+        else:
+            merged.append(p)
+    return merged
